@@ -196,9 +196,18 @@ let run ~tier ~seed ~only acc =
     (never, 0, 0, [ XCreate (1, 1); XSetFile [ 1 ]; XOpen (0, 0); XClose 0; XCreate (2, 2); XSetFile [ 1; 2 ]; XAdvance (100, 0); XOpen (0, 0); XClose 1; XReloadNow 0; XOpen (0, 0); XClose 2; XDestroy 0 ]);
     (* not-a-table and missing files, filters *)
     (0, 1, 2, [ XCreate (1, 1); XCreate (2, 2); XCreate (3, -1); XCreate (4, 4); XSetFile [ 1; 2; 3; 4; 7 ]; XOpen (0, 0); XClose 0; XDup (0, 0, 2, 0); XOpen (1, 0); XClose 1; XDestroy 0; XDestroy 1 ]);
+    (* a file that is not a table in the middle of the setfile: the tables after it still belong to the view (no filters) *)
+    (0, 0, 0, [ XCreate (1, 1); XCreate (2, -1); XCreate (3, 3); XCreate (4, 4); XCreate (8, -1); XSetFile [ 1; 2; 3; 4; 8 ]; XOpen (0, 0); XClose 0;
+                XDup (0, 0, 0, 0); XOpen (1, 1); XClose 1; XSetFile [ 2; 3; 8 ]; XAdvance (2, 0); XReloadNow 0; XOpen (0, 0); XClose 2; XOpen (1, 0); XClose 3; XDestroy 1; XDestroy 0 ]);
+    (* a loaded table is deleted but still named by the rewritten setfile: it leaves the view; recreated later: the new content *)
+    (0, 0, 0, [ XCreate (1, 1); XCreate (2, 2); XCreate (3, 3); XSetFile [ 1; 2; 3 ]; XOpen (0, 0); XClose 0; XDelete 2; XSetFile [ 1; 2; 3 ]; XAdvance (2, 0); XReloadNow 0;
+                XOpen (0, 0); XClose 1; XCreate (2, 5); XSetFile [ 1; 2; 3 ]; XAdvance (2, 0); XReloadNow 0; XOpen (0, 0); XClose 2; XDestroy 0 ]);
+    (* a table stays loaded over several reloads of a changing setfile and is dropped later *)
+    (0, 0, 0, [ XCreate (1, 1); XCreate (2, 2); XCreate (3, 3); XSetFile [ 1; 2 ]; XOpen (0, 0); XClose 0; XSetFile [ 1; 2; 3 ]; XAdvance (2, 0); XReloadNow 0; XOpen (0, 0); XClose 1;
+                XSetFile [ 1; 3 ]; XAdvance (2, 0); XReloadNow 0; XOpen (0, 0); XClose 2; XSetFile [ 3 ]; XAdvance (2, 0); XReloadNow 0; XOpen (0, 0); XClose 3; XDestroy 0 ]);
   ] in
   List.iter (fun c -> if want () then check acc ~klass:"directed" c; incr idx) directed;
-  let n = if tier = "thorough" then 4000 else 250 in
+  let n = if tier = "thorough" then 4000 else 500 in
   for _ = 1 to n do
     if want () then check acc ~klass:"random_history" (gen_history (case_rng ~seed ~engine ~index:!idx));
     incr idx
